@@ -23,13 +23,33 @@ class CallGraph:
             return out
         f0 = self.prog.func(q)
         funcs = [f0]
-        for n in ast.walk(f0.node):
-            if isinstance(n, ast.Call):
-                name = n.func.attr if isinstance(n.func, ast.Attribute) else (n.func.id if isinstance(n.func, ast.Name) else None)
-                if name and f0.cls is not None and name in f0.cls.methods and f0.cls.methods[name] not in funcs:
-                    funcs.append(f0.cls.methods[name])
-                if name and name in f0.mod.funcs and f0.mod.funcs[name] not in funcs:
-                    funcs.append(f0.mod.funcs[name])
+        i = 0
+        while i < len(funcs) and len(funcs) < 12:          # helpers of helpers: `_make_state` -> `_node_class_of`
+            fi = funcs[i]
+            i += 1
+            for n in ast.walk(fi.node):
+                if isinstance(n, ast.Call):
+                    name = n.func.attr if isinstance(n.func, ast.Attribute) else (n.func.id if isinstance(n.func, ast.Name) else None)
+                    if name and f0.cls is not None and name in f0.cls.methods and f0.cls.methods[name] not in funcs \
+                            and isinstance(n.func, ast.Attribute) and isinstance(n.func.value, ast.Name) and n.func.value.id == "self":
+                        funcs.append(f0.cls.methods[name])
+                    if name and isinstance(n.func, ast.Name) and name in f0.mod.funcs and f0.mod.funcs[name] not in funcs:
+                        funcs.append(f0.mod.funcs[name])
+        # module-level tables referenced by those functions: ((PLAYER_k, K), ...) or {PLAYER_k: K, ...}
+        for f in funcs:
+            for n in ast.walk(f.node):
+                if isinstance(n, ast.Name) and isinstance(n.ctx, ast.Load) and n.id in f.mod.consts:
+                    tab = f.mod.consts[n.id]
+                    pairs = []
+                    if isinstance(tab, (ast.Tuple, ast.List)) and tab.elts and all(isinstance(e, (ast.Tuple, ast.List)) and len(e.elts) == 2 for e in tab.elts):
+                        pairs = [(e.elts[0], e.elts[1]) for e in tab.elts]
+                    elif isinstance(tab, ast.Dict) and tab.keys and all(k is not None for k in tab.keys):
+                        pairs = list(zip(tab.keys, tab.values))
+                    if pairs and all(isinstance(v, ast.Name) and v.id in self.prog.classes for _, v in pairs):
+                        for k, v in pairs:
+                            ok, val = self.prog.try_const(k, f.mod)
+                            if ok and isinstance(val, str):
+                                out.setdefault(val, v.id)
         for f in funcs:
             for n in ast.walk(f.node):
                 if isinstance(n, ast.If) and isinstance(n.test, ast.Compare) and len(n.test.ops) == 1 \
